@@ -519,10 +519,7 @@ Lemma step_nfirst strip p k hk first m t :
   Ok (inr (mkHS (set_fmt (set_paths p [] [] (old_time p) (new_time p)) FNormal) LKUnknown (S k) false true hk first)).
 Proof.
   intros Hf Hm.
-  assert (S1 : (starts_with (m :: 32%N :: t) (bs "> ") || starts_with (m :: 32%N :: t) (bs "< ")) = true).
-  { destruct Hm as [-> | ->].
-    - apply orb_true_iff. right. change (bs "< ") with [60%N; 32%N]. cbn [starts_with]. rewrite starts_with_nil. reflexivity.
-    - apply orb_true_iff. left. change (bs "> ") with [62%N; 32%N]. cbn [starts_with]. rewrite starts_with_nil. reflexivity. }
+  assert (S1 : normal_first_line (m :: 32%N :: t) = true) by (destruct Hm as [-> | ->]; reflexivity).
   assert (C1 : consume_str (bs "*** ") (m :: 32%N :: t) = None) by (destruct Hm as [-> | ->]; reflexivity).
   assert (C2 : consume_str (bs "+++ ") (m :: 32%N :: t) = None) by (destruct Hm as [-> | ->]; reflexivity).
   assert (C3 : consume_str (bs "--- ") (m :: 32%N :: t) = None) by (destruct Hm as [-> | ->]; reflexivity).
